@@ -29,8 +29,22 @@ def concretize(named_s, model):
     return out
 
 
-def do_call(I, kind, named_s, call, log, ns, nc):
+def probe(I, ns, nc):
+    """time, number of records and state of the live simulation, through the ABI"""
+    t = I.call_fn("engineexport_get_time", [])
+    n = I.call_fn("engineexport_get_nsamples", [])
+    buf = Vec([None] * (ns * nc), "double", raw=True, name="state_out")
+    I.call_fn("engineexport_get_state", [Ptr(buf)])
+    return (t, n, tuple(buf.elems))
+
+
+def do_call(I, kind, named_s, call, log, ns, nc, probes=False):
     name, _, arg = call.partition(":")
+    if probes and name in ("iterate", "iterate_n", "run"):
+        log.append(("probe", probe(I, ns, nc)))
+        do_call(I, kind, named_s, call, log, ns, nc, False)
+        log.append(("probe", probe(I, ns, nc)))
+        return
     if name == "init":
         log.append(("init", initialize(I, kind, named_s)))
     elif name == "iterate":
@@ -99,7 +113,7 @@ def sym_sequence(rec, scen, on_path=None):
         log = []
         do_call(I, kind, named_s, "init", log, ns, nc)
         for c in calls:
-            do_call(I, kind, named_s, c, log, ns, nc)
+            do_call(I, kind, named_s, c, log, ns, nc, scen.get("probes", False))
         return log
 
     n = 0
